@@ -172,6 +172,8 @@ func main() {
 	switch flag.Arg(0) {
 	case "c38":
 		c38(*seed, *n)
+	case "c07":
+		c07(*seed, *n)
 	default:
 		fmt.Fprintln(os.Stderr, "usage: chunkharness [-seed N] [-n N] c38|...")
 		os.Exit(2)
